@@ -190,7 +190,7 @@ class DepthStream(Stream):
     def cases(self, ctx):
         rng = ctx.rng_for("depth")
         out = []
-        for i in range(ctx.scale(260, 2400)):
+        for i in range(ctx.scale(170, 2400)):
             lax = rng.chance(30)
             names = ["main"] + [f"t{j}" for j in range(rng.choice([0, 1, 1, 2, 3]))]
             g = Gen(rng, names, lax)
@@ -360,7 +360,7 @@ class ParseStream(Stream):
     def cases(self, ctx):
         rng = ctx.rng_for("parse")
         out = []
-        for i in range(ctx.scale(700, 9000)):
+        for i in range(ctx.scale(420, 9000)):
             g = PGen(rng)
             k = rng.below(100)
             if k < 8:
@@ -414,14 +414,343 @@ class ParseStream(Stream):
                 "tokens>=20" if (obs.get("ntokens") or 0) >= 20 else "tokens<20"]
 
 
-PARSE_CPU_S = 5.0
+PARSE_CPU_S = 3.0  # "promptly" (parse stream, sources of a few hundred characters): CPU seconds for one parse
+
+
+SLOW_FLOOR_S = 2.0  # "promptly" (sources stream): a parse that needs more user-CPU than this ...
+GROWTH_MAX = 12.0  # ... must not cost more than 12x what the same shape a quarter of the size costs (linear: 4x, quadratic: 16x);
+# both thresholds are deliberately coarse: user-CPU time on a shared machine swings by a factor 2-3, and a flagged case is measured twice
+
+
+def cpu_budget(nchars) -> float:
+    """"promptly" for the adversarial sources: linear in the size of the text, 20 microseconds per character + 0.5 s
+    (well-formed and ill-formed sources of 100-200 kB measure 0.3 s; the budget leaves a factor 5-10 for a loaded machine)."""
+    return 0.5 + 20e-6 * (nchars or 0)
+
+# ---- stream 3: systematic recursive families at block depths 0..30, default Python recursion limit -----------
+FRAME_BASE = 30  # Python frames between the interpreter entry of the child and the first probe (measured: abs_base)
+BAND_LO, BAND_HI = 760, 1000
+
+
+def family(kind, d, variants):
+    """(templates, main) of the family `kind` with its recursive call sites at block depth `d`."""
+    w = lambda node: wrap(node, d, variants)  # noqa: E731
+    P = lambda i: ["probe", i]  # noqa: E731
+    if kind == "render-self":
+        t = [["a", [P(1), w(["render", "a"])]]]
+    elif kind == "include-self":
+        t = [["a", [P(1), w(["include", "a"])]]]
+    elif kind == "render-mutual":
+        t = [["a", [P(1), w(["render", "b"])]], ["b", [P(2), w(["render", "a"])]]]
+    elif kind == "include-mutual":
+        t = [["a", [P(1), w(["include", "b"])]], ["b", [P(2), w(["include", "a"])]]]
+    elif kind == "render-triple":
+        t = [["a", [P(1), w(["render", "b"])]], ["b", [P(2), w(["render", "c"])]], ["c", [w(["render", "a"]), P(3)]]]
+    elif kind == "include-render":
+        t = [["a", [P(1), w(["include", "b"])]], ["b", [P(2), w(["render", "a"])]]]
+    elif kind == "macro-self":
+        t = [["a", [P(1), ["macro", "m0", [w(["render", "a"])]], w(["call", "m0"])]]]
+    elif kind == "macro-include":
+        t = [["a", [P(1), ["macro", "m0", [P(2)]], w(["call", "m0"]), w(["include", "a"])]]]
+    elif kind == "extends-cycle":
+        t = [["a", [w(P(1)), ["extends", "b"], ["block", "b0", [P(2)]]]], ["b", [["extends", "a"]]]]
+    elif kind == "extends-self":
+        t = [["a", [["extends", "a"], w(P(1))]]]
+    elif kind == "extends-block-include":
+        t = [["a", [["extends", "base"], ["block", "b0", [P(1), w(["include", "a"])]]]], ["base", [P(2), ["block", "b0", [P(3)]]]]]
+    elif kind == "extends-block-render":
+        t = [["a", [["extends", "base"], ["block", "b0", [P(1), w(["render", "a"])]]]], ["base", [P(2), ["block", "b0", [P(3)]]]]]
+    elif kind == "block-include-self":
+        t = [["a", [P(1), ["block", "b0", [w(["include", "a"])]]]]]
+    elif kind == "render-fanout2":
+        t = [["a", [P(1), w(["render", "a"]), ["render", "a"]]]]
+    else:
+        raise ValueError(kind)
+    first = t[0][0]
+    return t + [["main", [P(0), ["include" if kind.startswith(("include", "macro-include", "block-include")) else "render", first]]]], "main"
+
+
+FAMILY_KINDS = ["render-self", "include-self", "render-mutual", "include-mutual", "render-triple", "include-render", "macro-self",
+                "macro-include", "extends-cycle", "extends-self", "extends-block-include", "extends-block-render", "block-include-self"]
+WRAPSETS = {"if": ["if"], "for": ["for"], "when": ["when"], "mixed": ["if", "for", "capture", "when", "unless", "with", "ifelse", "tablerow"]}
+
+
+INSIDE_BODY = ("macro-self", "extends-block-include", "extends-block-render", "block-include-self")  # the call site is already one block level down
+MECH = {  # which counter cuts the family off
+    "render-self": "copy", "render-mutual": "copy", "render-triple": "copy", "macro-self": "copy", "extends-block-render": "copy", "render-fanout2": "copy",
+    "include-self": "scope", "include-mutual": "scope", "macro-include": "scope", "block-include-self": "scope",
+    "extends-block-include": "copy+scope", "include-render": "disabled-tag", "extends-cycle": "seen-set", "extends-self": "seen-set",
+}
+
+
+def fam_case(kind, d, ws, mode, asy, limit=DEFAULT_DEPTH):
+    if kind in INSIDE_BODY:
+        d = min(d, BLOCK_LIMIT - 1)  # block_nesting_limit counts the macro / block level too
+    tpls, main = family(kind, d, WRAPSETS[ws])
+    return {"kind": kind, "d": d, "wrap": ws, "templates": tpls, "main": main, "mode": mode, "async": asy, "limit": limit}
+
+
+LAX_FANOUT_WITNESS = dict(fam_case("render-fanout2", 0, "if", "lax", False, DEFAULT_DEPTH), cpu=3.0)
+
+
+class FamilyStream(Stream):
+    """Self / mutually recursive include, render, macro-call, extends and block families with the recursive call at
+    block depths 0..30, STRICT and LAX, sync and async, default limits, **default Python recursion limit**."""
+
+    name = "families"
+    parallel = True
+    exhaustive = True
+
+    def cases(self, ctx):
+        depths = ctx.scale([0, 1, 3, 6, 10, 20, 30], list(range(0, 31)))
+        out = []
+        for kind in FAMILY_KINDS:
+            for d in depths:
+                for ws in ctx.scale(["if"] + (["mixed"] if d in (3, 30) else []), ["if", "for", "when", "mixed"]):
+                    for mode in ("strict", "lax"):
+                        for asy in ctx.scale([False], [False, True]):
+                            out.append(fam_case(kind, d, ws, mode, asy))
+                if ctx.tier == "quick" and d in (0, 10):
+                    out.append(fam_case(kind, d, "if", "strict", True))
+        # the fan-out family: STRICT at the default limit, LAX at small limits (2^(limit+2) executions)
+        for d in (0, 3):
+            out.append(fam_case("render-fanout2", d, "if", "strict", False))
+            for lim in ctx.scale([4, 6, 8], [4, 5, 6, 7, 8, 9, 10]):
+                out.append(fam_case("render-fanout2", d, "if", "lax", False, lim))
+        out.append(LAX_FANOUT_WITNESS)
+        return out
+
+    def impl(self, case):
+        from ..impl.c09_run import run_job
+
+        job = render_job(case, full=False, cpu=case.get("cpu", 20.0))
+        r = run_job(job, flavour="std", wall_limit=300.0)
+        return {"out": r["out"], "liquid": r.get("liquid"), "n": r.get("n"), "max_frames": r.get("max_frames"), "abs_base": r.get("abs_base")}
+
+    def line_obs(self, case, obs):
+        if case["kind"] == "render-fanout2" and case["mode"] != "strict" and case["limit"] > 12:
+            return None  # 2^(limit+2) executions: the model is exponential here too (theorem lax_cut_counterexample)
+        if not hasattr(self, "_obs"):
+            self._obs = {}
+        from ..core import jdump
+
+        self._obs[jdump(case)] = obs
+        return model_line(case, False)
+
+    def canon_model(self, case, m):
+        """The model run has no Python stack. Its prediction for the real interpreter: RecursionError when a probe
+        would run deeper than the recursion limit; its own outcome when the deepest probe stays well below; no
+        prediction in the band between (the parser and expression evaluation use frames the model does not count)."""
+        if not isinstance(m, dict) or "maxFrames" not in m:
+            return m
+        from ..core import jdump
+
+        obs = self._obs.get(jdump(case), {})
+        peak = m["maxFrames"] + FRAME_BASE
+        if case.get("async"):
+            return {"out": obs.get("out"), "n": obs.get("n")}  # frame costs of the coroutine path are not modelled
+        if peak > BAND_HI:
+            if case["mode"] != "strict":
+                return {"out": obs.get("out"), "n": obs.get("n")}  # a RecursionError wrapped by from_string may be swallowed
+            return {"out": "RecursionError", "n": obs.get("n")}
+        if peak >= BAND_LO:
+            return {"out": obs.get("out"), "n": obs.get("n")}
+        return {"out": m["out"], "n": m["n"]}
+
+    def compare_view(self, case, obs):
+        return {"out": obs["out"], "n": obs["n"]}
+
+    def oracle(self, case, obs):
+        o, kind = obs["out"], case["kind"]
+        if o in ("timeout", "crash"):
+            return (f"family|{o}|{kind}|{case['mode']}", f"the render did not finish: {o}")
+        if o == "RecursionError":
+            return (f"family|RecursionError|{MECH[kind]}", f"recursive {kind} at block depth {case['d']} exhausted the Python stack instead of ContextDepthError/TemplateInheritanceError")
+        if o == "ok":
+            if case["mode"] == "strict":
+                return (f"family|not-cut|{kind}", "an unconditionally recursive family rendered without an error in STRICT mode")
+            return None
+        if o in PROPERTY_ERRORS:
+            return None
+        if obs.get("liquid") and o in OTHER_LIQUID and kind in ("include-render", "macro-include"):
+            return None  # include is disabled inside render / macro: DisabledTagError cuts the recursion first
+        return (f"family|unexpected|{kind}|{o}", f"recursion ended in {o}")
+
+    def nontrivial(self, case, obs):
+        return True
+
+    def tags(self, case, obs):
+        return [obs["out"], case["kind"], f"d{case['d']}", case["mode"], "async" if case["async"] else "sync"]
+
+    def shrink_candidates(self, case):
+        if case["d"] > 0:
+            for d in sorted({0, case["d"] // 2, case["d"] - 1}):
+                if d < case["d"]:
+                    yield fam_case(case["kind"], d, case["wrap"], case["mode"], case["async"], case["limit"])
+
+
+# ---- stream 4: adversarial sources (oracle only) --------------------------------------------------------------
+REPEATS = {
+    "open_out": "{{", "open_tag": "{%", "close_out": "}}", "close_tag": "%}", "out": "{{ x }}", "if_noexpr": "{% if %}", "if": "{% if a %}",
+    "endif": "{% endif %}", "else": "{% else %}", "raw": "{% raw %}", "endraw": "{% endraw %}", "comment": "{% comment %}", "endcomment": "{% endcomment %}",
+    "case": "{% case a %}", "case_bare": "{% case %}", "when": "{% when 1 %}", "for": "{% for i in a %}", "liquid": "{% liquid if a %}",
+    "wsctl": "{{- ", "brace": "{", "tagdash": "{%- -%}", "quote": "{{ ' }}", "doc": "{% doc %}", "ifelse": "{% if a %}{% else %}", "elsif": "{% elsif a %}",
+    "capture": "{% capture x %}", "hash": "{% # %}", "assign": "{% assign x = 1 %}", "tablerow": "{% tablerow i in a %}", "unless": "{% unless a %}",
+    "inline_if": "{% if a %}x", "nl_liquid": "{% liquid\nif a\n%}", "ifchanged": "{% ifchanged %}", "include": "{% include 'x' %}", "cycle": "{% cycle 1, 2 %}",
+}
+SUPERLINEAR = ("open_out", "raw", "doc")  # the lexer regex backtracks on these (known findings)
+NESTED = {
+    "parens": lambda n: "{% if " + "(" * n + "a" + ")" * n + " %}x{% endif %}",
+    "nots": lambda n: "{% if " + "not " * n + "a %}x{% endif %}",
+    "nested-brackets": lambda n: "{{ a" + "[a" * n + "]" * n + " }}",
+    "dots": lambda n: "{{ a" + ".b" * n + " }}",
+    "filters": lambda n: "{{ a" + " | upcase" * n + " }}",
+    "and-chain": lambda n: "{% if a" + " and a" * n + " %}x{% endif %}",
+    "or-chain": lambda n: "{% if a" + " or a" * n + " %}x{% endif %}",
+    "args": lambda n: "{{ a | f: " + ", ".join(["1"] * n) + " }}",
+    "whens": lambda n: "{% case a %}{% when " + ", ".join(["1"] * n) + " %}{% endcase %}",
+    "ranges": lambda n: "{% for i in " + "(" * n + "1..2" + ")" * n + " %}{% endfor %}",
+    "balanced-if": lambda n: "{% if a %}" * n + "{% endif %}" * n,
+    "balanced-for-30": lambda n: ("{% for i in a %}" * 30 + "{% endfor %}" * 30) * (n // 30 + 1),
+    "case-whens": lambda n: "{% case a %}" + "{% when 1 %}x" * n + "{% endcase %}",
+    "elsifs": lambda n: "{% if a %}" + "{% elsif a %}x" * n + "{% endif %}",
+    "liquid-lines": lambda n: "{% liquid\n" + "assign x = 1\n" * n + "%}",
+    "liquid-nest": lambda n: "{% liquid " + "liquid " * n + "assign x = 1 %}",
+}
+
+
+class SourceStream(Stream):
+    """Adversarial source texts through `Environment.from_string`: 10^3/10^4 repetitions of every delimiter and tag
+    fragment (unterminated / unbalanced), deeply nested expressions, and generated programs damaged by
+    harness/gen/templates.malform. Oracle only: finishes within the CPU budget, no RecursionError, no crash."""
+
+    name = "sources"
+    parallel = True
+    has_model = False
+
+    def cases(self, ctx):
+        out = []
+        for name, piece in REPEATS.items():
+            for mode in ("strict", "lax"):
+                if ctx.tier == "quick" and mode == "lax" and name in SUPERLINEAR:
+                    continue  # same lexer, same cost: strict only in the quick tier
+                for n in ctx.scale([10000], [1000, 3000, 10000]):
+                    out.append({"family": "repeat|" + name, "source": piece, "repeat": n, "mode": mode})
+        for name in NESTED:
+            for n in ctx.scale([100, 10000], [30, 100, 300, 1000, 3000, 10000]):
+                out.append({"family": "nested|" + name, "nested": name, "n": n, "mode": "strict"})
+        rng = ctx.rng_for("sources")
+        from ..gen.templates import gen_program, malform
+
+        for i in range(ctx.scale(100, 1500)):
+            prog = gen_program(rng)
+            src = prog["source"] if isinstance(prog, dict) and "source" in prog else str(prog)
+            for _ in range(rng.choice([1, 1, 2, 3])):
+                src = malform(rng, src)
+            out.append({"family": "malformed", "source": src, "repeat": 1, "mode": rng.choice(["strict", "lax", "warn"])})
+        return out
+
+    def impl(self, case):
+        from ..impl.c09_run import run_job
+
+        def one(scale):
+            if "nested" in case:
+                src, rep = NESTED[case["nested"]](max(1, case["n"] // scale)), 1
+            else:
+                src, rep = case["source"], max(1, case.get("repeat", 1) // scale)
+            return run_job({"kind": "parse", "source": src, "repeat": rep, "mode": case["mode"], "extra": True, "cpu_limit": 30.0}, "std", 300.0)
+
+        r = one(1)
+        obs = {"out": r["out"], "liquid": r.get("liquid"), "cpu_s": r.get("cpu_s"), "len": r.get("len")}
+        if case["family"] != "malformed" and (r.get("cpu_s") or 0) > SLOW_FLOOR_S:
+            q = one(4)  # the same shape a quarter of the size: linear cost -> a quarter of the time
+            obs["cpu_quarter_s"] = q.get("cpu_s")
+            if obs["cpu_s"] > GROWTH_MAX * max(q.get("cpu_s") or 0, 0.001):
+                # measure again; keep the measurement that looks *less* super-linear
+                r2, q2 = one(1), one(4)
+                if (r2.get("cpu_s") or 0) * max(obs["cpu_quarter_s"] or 0, 0.001) < obs["cpu_s"] * max(q2.get("cpu_s") or 0, 0.001):
+                    obs["cpu_s"], obs["cpu_quarter_s"] = r2.get("cpu_s"), q2.get("cpu_s")
+        return obs
+
+    def oracle(self, case, obs):
+        o = obs["out"]
+        fam = case["family"]
+        if o in ("timeout", "crash"):
+            return (f"source|{o}|{fam}", f"parsing did not finish: {o} after {obs.get('cpu_s')} s CPU")
+        if o == "RecursionError":
+            return (f"source|RecursionError|{fam}", f"parsing exhausted the Python stack ({obs.get('len')} characters)")
+        cq = obs.get("cpu_quarter_s")
+        if cq is not None and obs["cpu_s"] > SLOW_FLOOR_S and obs["cpu_s"] > GROWTH_MAX * max(cq, 0.001):
+            return (f"source|slow|{fam}", f"{obs['cpu_s']} s CPU for {obs.get('len')} characters, {cq} s for a quarter of them: super-linear")
+        return None
+
+    def nontrivial(self, case, obs):
+        return (obs.get("len") or 0) >= 1000 or obs["out"] != "ok"
+
+    def tags(self, case, obs):
+        return [case["family"].split("|")[0], "liquid-error" if obs.get("liquid") else obs["out"], case["mode"]]
+
+    def shrink_candidates(self, case):
+        for k in ("repeat", "n"):
+            if k in case and case[k] > 10:
+                c = dict(case)
+                c[k] = case[k] // 2
+                yield c
 
 
 def streams(ctx):
-    return [DepthStream(), ParseStream()]
+    return [DepthStream(), ParseStream(), FamilyStream(), SourceStream()]
 
 
-RULE = "wip"
-TRUSTED_BASE = ["wip"]
-ASSUMPTIONS = ["wip"]
-MANIFEST = {"technique": "wip", "text": "wip", "note": "wip"}
+RULE = (
+    "Every case runs in a child process with a CPU-time limit. stream depth: random pools of 1-4 templates over probe / "
+    "if-unless-case-capture-ifchanged blocks / for-tablerow-with / include / render / macro-call / extends-block with recursive "
+    "and mutually recursive call sites, STRICT (context_depth_limit 3..30) and LAX/WARN (limit 4-5, fan-out <= 2), rendered with the "
+    "Python recursion limit out of the way; outcome class and every probe's (_copy_depth, scope.size(), Python frame depth) "
+    "compared with Model/Recur.lean. stream parse: structured sources over if/unless/case/for/capture/comment/doc/liquid/assign/"
+    "break + stray and unknown tags, 55% damaged (pieces dropped, duplicated, swapped, truncated, expressions removed, openers "
+    "inserted), nests of 5..40 levels, block_nesting_limit 3/5/30, STRICT/LAX/WARN: the real lexer's tokens go to "
+    "Model/ParseLoops.lean which must reproduce outcome class, tokens consumed (stream.pos) and the skeleton of the tree. "
+    "stream families (exhaustive over its grid): 13 self/mutually recursive families (render, include, macro, extends cycle, "
+    "extends+block with include/render, block+include) x call-site block depth 0..30 x wrapper kinds x STRICT/LAX x sync/async, "
+    "default limits and default Python recursion limit, plus the fan-out-2 family; oracle: ContextDepthError / "
+    "TemplateInheritanceError (LAX: ok), never RecursionError / timeout / other; model: same outcome, or RecursionError when a "
+    "probe would run deeper than 1000 frames. stream sources (oracle only): 10^4 repetitions of 35 delimiter / tag fragments, 16 "
+    "nested-expression and nested-block shapes up to 10^4, generated programs damaged by gen.templates.malform; oracle: no "
+    "timeout, no RecursionError, CPU <= 0.5 s + 20 us/char. Non-trivial: depth - an error of the property or >= 2 copies or >= 4 "
+    "pushes; parse - >= 4 tokens and an error, an IllegalNode or >= 2 blocks; families - all; sources - >= 1000 characters or an error."
+)
+TRUSTED_BASE = [
+    "Lean 4.33 kernel; axioms subset of {propext, Classical.choice, Quot.sound}",
+    "hand-written model LiquidVerif/Model/Recur.lean of RenderContext.extend/copy, BoundTemplate.render_with_context (STRICT/LAX), "
+    "include/render/macro-call/extends/block nodes and _build_block_stacks (expressions pre-evaluated; output reduced to probe executions)",
+    "hand-written model LiquidVerif/Model/ParseLoops.lean of Parser._parse/parse_block/eat_block, Tag.get_node and the if/unless/case/"
+    "for/capture/comment/doc/liquid/assign/break/illegal tag parsers over the lexer's token list (expression syntax assumed valid)",
+    "correspondence harness harness/props/c09.py + harness/impl/c09_child.py/c09_run.py + Driver/C09.lean (child-process isolation, "
+    "ITIMER_VIRTUAL CPU limits, sys._getframe depth probes, TokenStream.pos, AST skeleton)",
+    "the per-construct Python frame costs kBlock=5, kWhen=7, kPartial=3, kCall=5 (CPython 3.12, synchronous path): Lean definitions "
+    "compared with measured probe depths on every case of the depth stream",
+    "CPython: default recursion limit 1000; RecursionError is raised when the frame depth exceeds it",
+]
+ASSUMPTIONS = [
+    "wall-clock time ('promptly') and the CPython stack are runtime facts: the model bounds loop iterations / token consumption and counts "
+    "frames, the harness measures CPU time and RecursionError (this part of the property is checked by test, not proved)",
+    "the lexer (one regular-expression scan) is outside ParseLoops; its termination is the regex engine's, its cost is measured by the sources stream",
+    "expression parsing inside a tag is outside ParseLoops (expressions are valid or absent in the parse stream); the sources stream exercises it",
+    "block.super, required blocks, break/continue, loop limits and the asynchronous frame costs are not in Recur (async families are checked by the direct oracle only)",
+    "in LAX/WARN mode a RecursionError raised while a partial is being parsed is wrapped by from_string into LiquidError and then dropped: such a stack overflow is invisible to the observation 'ok'",
+]
+MANIFEST = {
+    "technique": "Lean 4 proof (total fuel-free models: rendering terminates on the lexicographic measure (limit+2-copy depth, limit+2-scope size, node size), "
+    "parsing on the remaining token weight; invariants by mutual functional induction; closure arguments for recursive families) + child-process differential "
+    "correspondence and direct oracles with CPU-time limits",
+    "text": "Proved for every template pool / token list, no bound: context_depth_bounded (<= limit+1 copies, <= limit+1 scope maps, <= (limit+1)(limit+2)+limit+1 "
+    "nested activations at every executed statement), depth_cut_render / depth_cut_include (any self- or mutually recursive render/include family, call sites at "
+    "any block depth, ends in ContextDepthError in STRICT mode), extends_cycle_cut (TemplateInheritanceError), tokens_strictly_consumed / parse_never_rewinds / "
+    "case_loop_eof_raises / lax_parse_total (every parser loop pass continues on a strictly lighter stream; LAX parsing always completes), frames_bounded_partial "
+    "(<= 5 frames per activation + 7 per block level). Counter-examples proved and replayed: stack_counterexample (self-render at block depth 10 needs 1693 frames > "
+    "1000: RecursionError), lax_cut_counterexample (LAX mode: 2^(limit+2)-1 executions, no error).",
+    "note": "Trusted: Lean kernel, the two hand models, the harness (child processes, frame probes), the measured frame constants, CPython's recursion limit. "
+    "'Promptly' and 'within the stack' are runtime facts measured by the sources/families streams; 11 known findings (RecursionError x3 mechanisms, LAX fan-out hang, "
+    "4 quadratic lexer inputs, 3 expression-parser recursion shapes).",
+}
